@@ -15,11 +15,13 @@ var kvProps = map[string]bool{"ALL": true, "C01": true, "C05": true, "C06": true
 // schedPlans: scenario-name prefixes per property.
 var schedPlans = map[string][]string{
 	"C02": {"R-", "L-"},
-	"C03": {"S1-", "S2-", "S3-", "S4-", "S5-", "S6-", "S7-", "S8-", "S9-", "S10-", "S11-", "L-wux", "L-update"},
+	"C03": {"S1-", "S2-", "S3-", "S4-", "S5-", "S6-", "S7-", "S8-", "S9-", "S10-", "S11-", "L-wux", "L-update", "L-incr", "L-writesubdoc", "L-subdocinsert"},
 	"C08": {"F-"},
 	"C09": {"B-"},
 	"C15": {"K-"},
-	"C18": {"S6-", "L-subdoc"},
+	"C18": {"S6-", "L-subdoc", "L-writesubdoc"},
+	"C12": {"W-"},
+	"C14": {"E-"},
 	"C20": {"X-"},
 	"C13": {"O-"},
 	"C04": {"H-"},
@@ -30,7 +32,13 @@ var schedPlans = map[string][]string{
 // matrixProps: properties that also run the pairwise matrix (scenarios5.go: every unordered pair of a pool
 // of 29 operations on one key, in memory with one handle and on disk with two) at a deviation bound one
 // lower than the focused scenarios.
-var matrixProps = map[string]bool{"C03": true, "C08": true, "C09": true, "C17": true, "C20": true}
+var matrixProps = map[string]func(name string) bool{
+	"C03": func(string) bool { return true }, "C08": func(string) bool { return true }, "C09": func(string) bool { return true },
+	"C17": func(string) bool { return true }, "C20": func(string) bool { return true },
+	// the pairs with a CAS-carrying write / a sub-document operation in them
+	"C02": func(n string) bool { return strings.Contains(n, "(read cas)") },
+	"C18": func(n string) bool { return strings.Contains(n, "ubDoc") || strings.Contains(n, "ubdoc") },
+}
 
 type genPlan struct {
 	kind                      string
@@ -114,6 +122,17 @@ func RunCheck(prop, tier string, procs int, budget time.Duration) int {
 			RunKVBFS(rep, pool, Config{Disk: true, Witness: true, TwoHandles: true, MaxDocSize: 300}, 3, 1, deadline)
 		}
 	}
+	if prop == "C13" {
+		// "an on-disk bucket's data is intact when reopened after its last handle closed": the on-disk KV BFS,
+		// whose every transition ends with the reopen differential (kvworld.go)
+		known = true
+		rep.Rule = ruleSeq
+		if quick {
+			RunKVBFS(rep, pool, Config{Disk: true, Witness: true, TwoHandles: true, MaxDocSize: 300}, 2, 0, time.Now().Add(budget/2))
+		} else {
+			RunKVBFS(rep, pool, Config{Disk: true, Witness: true, TwoHandles: true, MaxDocSize: 300}, 3, 1, time.Now().Add(budget/2))
+		}
+	}
 	if prefixes := schedPlans[prop]; prefixes != nil {
 		known = true
 		if rep.Rule != "" {
@@ -126,8 +145,14 @@ func RunCheck(prop, tier string, procs int, budget time.Duration) int {
 			bound = 3
 		}
 		RunSchedMany(rep, pool, ScenarioNamesTier(quick, prefixes...), bound, deadline)
-		if matrixProps[prop] {
-			RunSchedManyKey(rep, pool, ScenarioNamesTier(quick, "P-"), bound-1, deadline, "sched_pairwise_matrix")
+		if sel := matrixProps[prop]; sel != nil {
+			var names []string
+			for _, n := range ScenarioNamesTier(quick, "P-") {
+				if sel(n) {
+					names = append(names, n)
+				}
+			}
+			RunSchedManyKey(rep, pool, names, bound-1, deadline, "sched_pairwise_matrix")
 		}
 	}
 	if prop == "C04" {
